@@ -102,9 +102,13 @@ def gen(rng, idx, tier):
                     if rng.random() < 0.75:
                         g["anchors"].append({"name": "%s_%d" % (k, i), "x": coord(rng),
                                              "y": coord(rng)})
+            if rng.random() < 0.25:
+                # a plain anchor next to the numbered ones (in front of, between or after them)
+                g["anchors"].insert(rng.choice([0, 0, rng.randint(0, len(g["anchors"]))]),
+                                    {"name": rng.choice(classes), "x": coord(rng), "y": coord(rng)})
             if rng.random() < 0.3:
                 # explicit NULL anchor for a component that has no other anchor
-                used_n = {int(a["name"].rpartition("_")[2]) for a in g["anchors"]}
+                used_n = {int(a["name"].rpartition("_")[2]) for a in g["anchors"] if "_" in a["name"]}
                 free = [i for i in range(1, ncomp + 2) if i not in used_n]
                 if free:
                     g["anchors"].append({"name": "_%d" % rng.choice(free), "x": 0, "y": 0})
@@ -416,6 +420,8 @@ def run(case):
                     lc_all = lc | cands
                     res = gp.attach(b, m, tag, component=comp - 1)
                     bump("ligature_components_judged")
+                    if db["plain"]:
+                        bump("ligature_components_of_glyphs_with_plain_anchors_too")
                     if not (db["lig"].get(comp)):
                         bump("null_components")
                     _judge(violations, bump, b, m, tag, comp, lc_all, res["offset"], res, b_is_mark,
